@@ -3,21 +3,27 @@
 # exit 0 ok / 1 violation (prints VIOLATION line) / 2 inconclusive
 prop=$1; tier=$2; out=$3
 V=/verif; seed=${VERIF_SEED:-1}
-if [ "$tier" = thorough ]; then NAT=300000; MS=48; MI=24; else NAT=6000; MS=8; MI=8; fi
+if [ "$tier" = thorough ]; then NAT=300000; MS=48; MI=24; NT=1800; MT=7200; else NAT=6000; MS=12; MI=12; NT=300; MT=1800; fi
 cd $V/threads
 t0=$(date +%s.%N)
 cargo build --release --quiet 2>$V/target/e4-build.log || { echo "INCONCLUSIVE: E4 build failed"; tail -5 $V/target/e4-build.log; exit 2; }
-nat=$($V/target/threads/release/vthreads --seed $seed --iters $NAT 2>&1); rc=$?
-if [ $rc -ne 0 ]; then
+# native stage under a watchdog: a stall (in-process watchdog, exit 3) or the outer time limit is NOT a verdict; the
+# Miri stage still runs and decides, and without a finding there the check is inconclusive
+nat=$(timeout $NT $V/target/threads/release/vthreads --seed $seed --iters $NAT 2>&1); rc=$?
+hung=""
+if echo "$nat" | grep -q E4-VIOLATION; then
   mkdir -p $V/replays; f=$V/replays/$prop-E4-native-seed$seed.txt; echo "$nat" > $f
   echo "  [E4/native] $(echo "$nat" | grep -m1 E4-VIOLATION | cut -c1-300)"; echo "VIOLATION property=$prop replay=$f"; exit 1
+elif [ $rc -ne 0 ]; then
+  hung="native stage exit $rc: $(echo "$nat" | grep -m1 E4-HANG | cut -c1-200)"
 fi
-miri=$(MIRIFLAGS="-Zmiri-many-seeds=0..$MS -Zmiri-disable-stacked-borrows" RUSTFLAGS="--cfg futures_buffered_verif" cargo +nightly miri run --quiet --target-dir $V/target/threads-miri -- --seed $seed --iters $MI --max-children 3 2>&1); rc=$?
+miri=$(MIRIFLAGS="-Zmiri-many-seeds=0..$MS -Zmiri-disable-stacked-borrows" RUSTFLAGS="--cfg futures_buffered_verif" timeout $MT cargo +nightly miri run --quiet --target-dir $V/target/threads-miri -- --seed $seed --iters $MI --max-children 3 2>&1); rc=$?
 okc=$(echo "$miri" | grep -c '^E4 ok')
 if echo "$miri" | grep -q "Undefined Behavior\|E4-VIOLATION\|error: memory leaked"; then
   mkdir -p $V/replays; f=$V/replays/$prop-E4-miri-seed$seed.txt; echo "$miri" > $f
   echo "  [E4/miri] $(echo "$miri" | grep -m1 'Undefined Behavior\|E4-VIOLATION\|memory leaked' | cut -c1-300)"; echo "VIOLATION property=$prop replay=$f"; exit 1
 fi
+if [ -n "$hung" ]; then echo "INCONCLUSIVE: E4 $hung (Miri stage found nothing in $okc seeds)"; exit 2; fi
 if [ $rc -ne 0 ] || [ "$okc" -lt "$MS" ]; then echo "INCONCLUSIVE: E4 miri run exit $rc, $okc of $MS seeds completed"; echo "$miri" | tail -5; exit 2; fi
 t1=$(date +%s.%N)
 python3 - "$out" "$prop" "$tier" "$seed" "$NAT" "$MS" "$MI" "$nat" "$t0" "$t1" <<'PY'
@@ -28,7 +34,7 @@ m=re.search(r'nontrivial_iterations=(\d+)',nat); nt=int(m.group(1)) if m else 0
 m2=re.search(r'off_thread_waker_ops=(\d+)',nat); ops=int(m2.group(1)) if m2 else 0
 json.dump({"engine":"E4-threads","property":prop,"tier":tier,"seed":int(seed),
  "executions":NAT+MS*MI,"distinct_nontrivial":nt+MS*MI if nt else 0,
- "rule":"execution = one generated waker-traffic scenario (pure function of seed and iteration) run on real threads, natively (%d) and under Miri with %d scheduler seeds x %d scenarios (data-race, use-after-free, leak and weak-memory checks); non-trivial = at least one waker clone/wake/drop runs on a non-polling thread; distinct = distinct (seed, iteration[, miri seed])"%(NAT,MS,MI),
+ "rule":"execution = one generated waker-traffic scenario (pure function of seed and iteration; 1-3 threads clone/wake/drop live and stale child wakers while the owner polls, pushes further children into the slots it has just vacated, changes its task waker and drops the collection early or late) run on real threads, natively (%d) and under Miri with %d scheduler seeds x %d scenarios (data-race, use-after-free, leak and weak-memory checks); non-trivial = at least one waker clone/wake/drop runs on a non-polling thread; distinct = distinct (seed, iteration[, miri seed])"%(NAT,MS,MI),
  "native_iterations":NAT,"miri_seeds":MS,"miri_scenarios_per_seed":MI,"off_thread_waker_ops_native":ops,
  "samples":[{"native_summary":nat.strip().splitlines()[-1]}],
  "assumptions":["ThreadSanitizer is NOT used as an oracle: it does not model the acquire fence of the reference-count release path and reports a false race on the unchanged tree; Miri models fences and is used instead"],
